@@ -24,6 +24,7 @@ import (
 //	conv      {id, op, ...}                  string <-> int / []byte / []rune conversions
 //	variadic / select / constuse             the cases of GoMisc.tla (one small program each)
 //	minigo    {id, prog, forms}              a program of the mini language of MiniGo.tla, written in one or more source forms
+//	pkginit   {id, imps, vars, inits, forms} a program of several packages (PkgInit.tla): go.mod + one directory per package
 //
 // The driver only writes Go source for a case (string templates), builds and runs it with the public
 // API and logs what was printed / returned.  No expected value is computed here.
@@ -42,6 +43,11 @@ type runResult struct {
 
 // runProgram builds and runs src, capturing print/println through RunOptions.Print.
 func runProgram(src string) (res runResult) {
+	return runFiles(scriggo.Files{"main.go": []byte(src)})
+}
+
+// runFiles builds and runs the program made of files (main.go, and go.mod + one directory per imported package).
+func runFiles(files scriggo.Files) (res runResult) {
 	var cur []any
 	var mu sync.Mutex
 	defer func() {
@@ -52,7 +58,7 @@ func runProgram(src string) (res runResult) {
 			res.Lines = append(res.Lines, cur)
 		}
 	}()
-	p, err := scriggo.Build(scriggo.Files{"main.go": []byte(src)}, nil)
+	p, err := scriggo.Build(files, nil)
 	if err != nil {
 		if _, ok := err.(*scriggo.BuildError); ok {
 			return runResult{Outcome: "builderror", Msg: err.Error()}
@@ -1086,6 +1092,167 @@ func miscRun(raw []byte) []any {
 	return []any{o}
 }
 
+// ---------------------------------------------------------------- pkginit
+
+type pkgRef struct {
+	P int `json:"p"`
+	V int `json:"v"`
+}
+
+type pkgCase struct {
+	ID    int        `json:"id"`
+	Fam   string     `json:"fam"`
+	Imps  [][]int    `json:"imps"`
+	Vars  [][]pkgRef `json:"vars"`
+	Inits [][]pkgRef `json:"inits"`
+	Forms []int      `json:"forms"`
+}
+
+var pkgNames = []string{"p", "q", "r", "s", "u", "w"}
+
+// pkgFiles writes the program of PkgInit.tla: module a.b, the last package is main (main.go), package i < n lives
+// in the directory pkgNames[i-1].  Variable k of package i is  var Vk = t(10i+k, <what it reads or 0>)  ; the k-th
+// init function prints 10i+2+k and the variable it is going to write, then writes it; Dump prints 10i+9 and the
+// variables and calls Dump of the imported packages (which also makes every import used).
+//
+//	form 0: one import declaration per imported package; variables, init functions, Dump
+//	form 1: one grouped import declaration; init functions, Dump, t, variables
+func pkgFiles(c pkgCase, form int) (files scriggo.Files, names []string) {
+	n := len(c.Imps)
+	name := func(i int) string {
+		if i == n {
+			return "main"
+		}
+		return pkgNames[i-1]
+	}
+	ref := func(i int, r pkgRef) string {
+		if r.P == i {
+			return fmt.Sprintf("V%d", r.V)
+		}
+		return fmt.Sprintf("%s.V%d", name(r.P), r.V)
+	}
+	files = scriggo.Files{"go.mod": []byte("module a.b\n\ngo 1.21\n")}
+	names = []string{"go.mod"}
+	for i := 1; i <= n; i++ {
+		if i < n && len(c.Vars[i-1])+len(c.Inits[i-1])+len(c.Imps[i-1]) == 0 {
+			used := false
+			for _, im := range c.Imps {
+				for _, j := range im {
+					used = used || j == i
+				}
+			}
+			if !used {
+				continue // the package is not part of the program
+			}
+		}
+		var imports, vars, inits, dump strings.Builder
+		if form == 0 {
+			for _, j := range c.Imps[i-1] {
+				fmt.Fprintf(&imports, "import \"a.b/%s\"\n", name(j))
+			}
+		} else if len(c.Imps[i-1]) > 0 {
+			imports.WriteString("import (\n")
+			for _, j := range c.Imps[i-1] {
+				fmt.Fprintf(&imports, "\t\"a.b/%s\"\n", name(j))
+			}
+			imports.WriteString(")\n")
+		}
+		tfn := "func t(tag int, x int) int {\n\tprintln(tag, x)\n\treturn (2*x + tag) % 1000\n}\n"
+		for k, r := range c.Vars[i-1] {
+			x := "0"
+			if r.P != 0 {
+				x = ref(i, r)
+			}
+			fmt.Fprintf(&vars, "var V%d = t(%d, %s)\n", k+1, 10*i+k+1, x)
+		}
+		for k, r := range c.Inits[i-1] {
+			tag := 10*i + 2 + k + 1
+			if r.P == 0 {
+				fmt.Fprintf(&inits, "func init() {\n\tprintln(%d, 0)\n}\n\n", tag)
+			} else {
+				v := ref(i, r)
+				fmt.Fprintf(&inits, "func init() {\n\tprintln(%d, %s)\n\t%s = (2*%s + %d) %% 1000\n}\n\n", tag, v, v, v, tag)
+			}
+		}
+		dn := "Dump"
+		fmt.Fprintf(&dump, "func %s() {\n\tprintln(%d", dn, 10*i+9)
+		for k := range c.Vars[i-1] {
+			fmt.Fprintf(&dump, ", V%d", k+1)
+		}
+		dump.WriteString(")\n")
+		for _, j := range c.Imps[i-1] {
+			fmt.Fprintf(&dump, "\t%s.Dump()\n", name(j))
+		}
+		dump.WriteString("}\n")
+		var b strings.Builder
+		fmt.Fprintf(&b, "package %s\n\n%s\n", name(i), imports.String())
+		if form == 0 {
+			if vars.Len() > 0 {
+				b.WriteString(tfn + "\n" + vars.String() + "\n")
+			}
+			b.WriteString(inits.String() + dump.String())
+		} else {
+			b.WriteString(inits.String() + dump.String())
+			if vars.Len() > 0 {
+				b.WriteString("\n" + tfn + "\n" + vars.String())
+			}
+		}
+		if i == n {
+			b.WriteString("\nfunc main() {\n\tDump()\n}\n")
+		}
+		path := "main.go"
+		if i < n {
+			path = name(i) + "/" + name(i) + ".go"
+		}
+		files[path] = []byte(b.String())
+		names = append(names, path)
+	}
+	return files, names
+}
+
+func pkgRun(raw []byte) []any {
+	var c pkgCase
+	if err := json.Unmarshal(raw, &c); err != nil || len(c.Imps) == 0 || len(c.Imps) > len(pkgNames)+1 ||
+		len(c.Vars) != len(c.Imps) || len(c.Inits) != len(c.Imps) {
+		return []any{map[string]any{"id": c.ID, "fam": "pkginit", "imps": [][]int{{}}, "vars": [][]pkgRef{{}}, "inits": [][]pkgRef{{}},
+			"form": 0, "outcome": "badcase", "out": [][]int{}, "msg": fmt.Sprint(err)}}
+	}
+	forms := c.Forms
+	if len(forms) == 0 {
+		forms = []int{0}
+	}
+	var out []any
+	for _, form := range forms {
+		o := map[string]any{}
+		_ = json.Unmarshal(raw, &o) // echo every field of the case
+		files, names := pkgFiles(c, form)
+		res := runFiles(files)
+		lines := [][]int{}
+		for _, l := range res.Lines {
+			nums := make([]int, len(l))
+			for j, v := range l {
+				if x, ok := v.(int); ok {
+					nums[j] = x
+				} else {
+					nums[j] = -1
+				}
+			}
+			lines = append(lines, nums)
+		}
+		o["form"], o["outcome"], o["out"], o["msg"] = form, res.Outcome, lines, res.Msg
+		if *flagKeepSrc {
+			var b strings.Builder // the files, each after a line "-- path --"
+			for _, nm := range names {
+				fmt.Fprintf(&b, "-- %s --\n%s", nm, files[nm])
+			}
+			o["src"] = b.String()
+			o["raw"] = rawText(res)
+		}
+		out = append(out, o)
+	}
+	return out
+}
+
 // ---------------------------------------------------------------- main loop
 
 type job func() []any
@@ -1127,6 +1294,8 @@ func main() {
 				jobs = append(jobs, func() []any { return mgRun(c) })
 			case "variadic", "select", "constuse":
 				jobs = append(jobs, func() []any { return miscRun(raw) })
+			case "pkginit":
+				jobs = append(jobs, func() []any { return pkgRun(raw) })
 			case "initorder":
 				var c initCase
 				if err := json.Unmarshal(raw, &c); err != nil {
